@@ -601,6 +601,7 @@ def b_open(it, args, kwargs, node):
     mode = it.py_key(args[1]) if len(args) > 1 else it.py_key(kwargs['mode']) if 'mode' in kwargs else 'r'
     f = FileV(it.fresh('file'), mode=mode)
     f.open_args = (args, kwargs)
+    it.all_files.append(f)
     it.event('open', node, file=f, args=args, kwargs=kwargs)
     return f
 
